@@ -128,3 +128,36 @@ package stage
 //@   on return assert complete-is-queued: err == nil && called(os.Rename) ==> went((*Stage).processQueue)
 //@   on return assert copy-error-is-reported: called(io.Copy) && lastret(io.Copy, 1) != nil ==> err != nil && !called(writeCompanion)
 //@   on return assert record-error-is-reported: called(writeCompanion) && lastret(writeCompanion, 0) != nil ==> err != nil
+
+// ---------------------------------------------------------------- answers to the sender (C02 C05 C08 C09)
+
+//@ func (*Stage).Received
+//@   on return assert counts-leading-prefix: 0 <= n && n <= len(parts)
+//@   on return assert stops-at-first-missing: n < len(parts) ==> called((*Stage).partReceived) && !lastret((*Stage).partReceived, 0) && lastarg((*Stage).partReceived, 1) == part && n == rangeindex
+//@   loop 0 invariant -1 <= rangeindex && rangeindex < len(parts) && n == rangeindex + 1
+//@   loop 0 backedge assert counted-only-if-received: called((*Stage).partReceived) && lastret((*Stage).partReceived, 0) && lastarg((*Stage).partReceived, 1) == part
+
+//@ func (*Stage).buildCache trusted
+//@   modifies everything
+//@ func (*Stage).delPathLock
+//@   modifies s.pathLocks, entries(s.pathLocks), s.lastIn
+//@ func (*Stage).getPathLock
+//@   modifies entries(s.pathLocks)
+
+//@ func (*Stage).partReceived
+//@   modifies everything
+//@   on return assert yes-needs-record-or-known-file: result ==> (called(companionPartExists) && lastret(companionPartExists, 0) && lastarg(companionPartExists, 1) == lastret(sts.Binned.GetSlice, 0) && lastarg(companionPartExists, 2) == lastret(sts.Binned.GetSlice, 1) && lastarg(companionPartExists, 0) == lastret(readLocalCompanion, 0) && cmp.Hash == final.hash && cmp.Renamed == final.renamed && cmp.Prev == final.prev) || (existing != nil && existing.state != stateFailed && existing.hash == final.hash && existing.renamed == final.renamed)
+//@   on return assert known-file-answers-yes: existing != nil && existing.state != stateFailed && existing.hash == final.hash && existing.renamed == final.renamed ==> result
+//@   before call readLocalCompanion assert reads-own-companion: arg0 == pathjoin(s.rootDir, lastret(sts.Binned.GetName, 0)) && exclusive(lock)
+//@   before call companionPartExists assert same-version-only: final.hash == lastret(sts.Binned.GetFileHash, 0) && final.path == pathjoin(s.rootDir, lastret(sts.Binned.GetName, 0))
+
+//@ func (*Stage).getWaiting trusted
+//@   modifies nothing
+
+//@ func (*Stage).GetFileStatus
+//@   on return assert verdict-map-positive: result == sts.ConfirmPassed || result == sts.ConfirmWaiting ==> state == stateValidated || state == stateFinalized || state == stateLogged
+//@   on return assert verdict-map-failed: (result == sts.ConfirmFailed) == (state == stateFailed)
+//@   on return assert verdict-map-waiting: result == sts.ConfirmWaiting ==> state == stateValidated && lastret((*Stage).getWaiting, 0) != nil
+//@   on return assert verdict-map-none: state == stateReceived || state == stateUnknown ==> result == sts.ConfirmNone
+//@   on return assert verdict-is-a-code: result == sts.ConfirmNone || result == sts.ConfirmFailed || result == sts.ConfirmPassed || result == sts.ConfirmWaiting
+//@   on return assert state-of-polled-file: path == pathjoin(s.rootDir, relPath) && lastarg((*Stage).getFileState, 1) == path
